@@ -677,10 +677,15 @@ Lemma spec_filter_defined q os :
   Some (firstn' (q_limit q)
           (map (project (q_data q)) (filter (fun o => sem_query q (o_card o)) os))).
 Proof.
-  intros Hk. unfold spec_filter, firstn'.
+  intros Hk. unfold spec_filter, firstn'. cbv zeta.
   rewrite spec_take_defined by (intros o _; apply all_known_defined; exact Hk).
-  destruct (q_limit q <=? 0)%Z; [|reflexivity].
-  rewrite firstn_all_le by apply filter_map_length_le. reflexivity.
+  pose proof (filter_map_length_le (project (q_data q)) (fun o => sem_query q (o_card o)) os) as HL.
+  destruct (q_limit q <=? 0)%Z eqn:E0.
+  - rewrite firstn_all_le by exact HL. reflexivity.
+  - apply Z.leb_gt in E0.
+    destruct (Z.of_nat (List.length os) <? q_limit q)%Z eqn:E1.
+    + apply Z.ltb_lt in E1. rewrite !firstn_all_le by lia. reflexivity.
+    + apply Z.ltb_ge in E1. rewrite Z.min_l by lia. reflexivity.
 Qed.
 
 Lemma filter_refines q os :
